@@ -352,6 +352,24 @@ def extra_for(exprs):
     return chosen
 
 
+# vsum(dom, val): the sum of val over the finite key set dom (sum(d.values()) of a dict of ints). Laws of a finite sum, proved in lean/Vsum.lean:
+_vd, _vv, _vw = z3.Const("_vd", z3.ArraySort(I, B)), z3.Const("_vv", z3.ArraySort(I, I)), z3.Const("_vw", z3.ArraySort(I, I))
+VSUM = z3.Function("vsum", z3.ArraySort(I, B), z3.ArraySort(I, I), I)
+VSW = z3.Function("vsum_wit", z3.ArraySort(I, B), z3.ArraySort(I, I), z3.ArraySort(I, I), I)      # Skolem: a key where the premise of a law fails
+VSZ = z3.Function("vsum_pos", z3.ArraySort(I, B), z3.ArraySort(I, I), I)                            # Skolem: a key with a non-zero value / a negative value
+_w = VSW(_vd, _vv, _vw)
+_z = VSZ(_vd, _vv)
+EXTRA.update({
+    # pointwise <= on the keys gives <= of the sums (or the witness key violates the premise)
+    "vsum_mono (lemma, Lean)": z3.ForAll([_vd, _vv, _vw], z3.Or(z3.And(_vd[_w], _vv[_w] > _vw[_w]), VSUM(_vd, _vv) <= VSUM(_vd, _vw)),
+                                         patterns=[z3.MultiPattern(VSUM(_vd, _vv), VSUM(_vd, _vw))]),
+    # a sum of non-negative values is non-negative, and zero only if every value is zero
+    "vsum_nonneg (lemma, Lean)": z3.ForAll([_vd, _vv], z3.Or(z3.And(_vd[_z], _vv[_z] < 0), VSUM(_vd, _vv) >= 0), patterns=[VSUM(_vd, _vv)]),
+    "vsum_zero (lemma, Lean)": z3.ForAll([_vd, _vv, z3.Int("_vx")], z3.Or(z3.And(_vd[_z], _vv[_z] < 0), VSUM(_vd, _vv) > 0,
+                                                                        z3.Not(_vd[z3.Int("_vx")]), _vv[z3.Int("_vx")] == 0),
+                                         patterns=[z3.MultiPattern(VSUM(_vd, _vv), _vv[z3.Int("_vx")])]),
+})
+
 # coo_pos(rows, columns, len, i, j): some position of the two coordinate lists that addresses (i, j), if there is one (choice function)
 _AII = z3.ArraySort(I, I)
 coo_pos = z3.Function("coo_pos", _AII, _AII, I, I, I, I)
